@@ -45,7 +45,7 @@ def expNullable (f : FieldDef) (v : Nat) (kind : FKind) : Bool :=
   let tagged := rangeMatches f.tagged v
   match kind with
   | .prim k =>
-    if isFixedNumeric k then false
+    if neverNullable k then false
     else nv || k == .uuid || (tagged && f.ignorable && f.dflt.isNone)
          || (k == .datetimeI64 && f.dflt == some (strOf "-1"))
   | .primArr _ => nv
